@@ -203,7 +203,7 @@ func cleanup(base string) {
 func sanitizeFile(s string) string {
 	var b strings.Builder
 	for _, r := range s {
-		if r >= 'a' && r <= 'z' || r >= 'A' && r <= 'Z' || r >= '0' && r <= '9' || r == '_' || r == '-' || r == '.' || r == '#' {
+		if r >= 'a' && r <= 'z' || r >= 'A' && r <= 'Z' || r >= '0' && r <= '9' || r == '_' || r == '-' || r == '.' || r == '#' && false {
 			b.WriteRune(r)
 		} else {
 			b.WriteRune('_')
